@@ -199,7 +199,7 @@ def gen_spec(case):
     return S.rand_spec(case["spec_seed"], zero_bias=zb)
 
 
-def run_case(case, checker=None, pid="C03", nontrivial=None, spec_fn=None):
+def run_case(case, checker=None, pid="C03", nontrivial=None, spec_fn=None, between_episodes=None):
     from rexmon import drive_async as D
     from rexmon import specs as S
 
@@ -214,6 +214,8 @@ def run_case(case, checker=None, pid="C03", nontrivial=None, spec_fn=None):
     m = D.Monitor(seed=case["spec_seed"], p_sleep=0.1 if not wall else 0.0, max_sleep=0.002).install()
     for ep in range(2):
         stats = {}
+        if ep == 1 and between_episodes is not None:
+            between_episodes(nodes)
         try:
             if wall:
                 def _ep():
